@@ -390,7 +390,10 @@ impl<const BITS: usize, const LIMBS: usize> Uint<BITS, LIMBS> {
             r.limbs[LIMBS - 1 - i - limbs] = (x >> bits) | carry;
             carry = (x << (word_bits - bits - 1)) << 1;
         }
-        (r, carry != 0)
+        // Non-zero bits are lost through `carry` and through limbs moved past
+        // the low end: exactly when the shift exceeds the number of trailing
+        // zeros.
+        (r, self != Self::ZERO && rhs > self.trailing_zeros())
     }
 
     /// Right shift by `rhs` bits.
